@@ -129,7 +129,7 @@ class Ctx(object):
             self.violations.append({"key": key, "what": what, "replay": None})
             return True
         h = hashlib.sha1((key + "|" + what).encode()).hexdigest()[:10]
-        rdir = os.path.join(VERIF, "replay")
+        rdir = os.path.join(VERIF, "replay") if os.path.abspath(REPO) == "/repo" else os.path.join("/tmp", "verif-replay-scratch")
         os.makedirs(rdir, exist_ok=True)
         path = os.path.join(rdir, "%s-%s.json" % (self.pid, h))
         if len(self.violations) < 25:
@@ -171,7 +171,7 @@ class Ctx(object):
             "evaluations": max(self.evaluations, self.traces),
             "distinct_nontrivial": len(self.nontrivial) + self.nontrivial_count,
             "rule": self.rule,
-            "samples": self.samples[: self.sample_cap + 4],
+            "samples": self.samples[: self.sample_cap + 4] or [{"note": "the run ended before it recorded a sample case", "tlc_runs": self.tlc_runs[:2]}],
             "tlc_runs": self.tlc_runs,
             "conformance_drift": self.drifts,
             "known_findings_hit": self.known_hits,
@@ -189,7 +189,9 @@ class Ctx(object):
             "wall_s": round(time.time() - self.t0, 2),
             "violations": len(self.violations),
         }
-        d = os.path.join(VERIF, "evidence")
+        # runs against a scratch copy of the repository (mutants, fixes under test) must not overwrite the evidence
+        # of the tree under /repo
+        d = os.path.join(VERIF, "evidence") if os.path.abspath(REPO) == "/repo" else os.path.join("/tmp", "verif-evidence-scratch")
         os.makedirs(d, exist_ok=True)
         tmp = os.path.join(d, ".%s.json.tmp" % self.pid)
         with open(tmp, "w") as f:
